@@ -6,7 +6,8 @@ From RG Require Import Base.Bytes Base.LineTerm Model.Lines Model.SearcherCore S
   Model.RegexBuild Model.RegexLiteral Model.CoreLinePaths
   Proofs.RegexSemProofs Proofs.RegexPassesProofs Proofs.RegexLiteralProofs
   Proofs.LinePathsProofs Proofs.LineLocalityProofs Proofs.LinesProofs Proofs.FindSpecProofs Proofs.RegexCandProofs
-  Model.Glue Model.ReadByLine Spec.GrepSpec Proofs.ReaderProofs Proofs.RegexReaderProofs.
+  Model.Glue Model.ReadByLine Spec.GrepSpec Proofs.ReaderProofs Proofs.RegexReaderProofs
+  Model.SmartCase Spec.SmartCase Proofs.SmartCaseProofs.
 
 (* 1. line locality (PARTIAL: LF terminator; look-around restricted to LF line anchors and the ASCII
       word assertions — see line_locality_unicode_refuted and line_locality_crlf_refuted for why the
@@ -302,3 +303,35 @@ Check line_locality_partial : forall h buf a b i j,
   (a = 0 \/ byte_at buf (a - 1) = 10%N) -> (b = length buf \/ byte_at buf b = 10%N) ->
   i <= j <= b - a ->
   (Matches h buf (a + i) (a + j) <-> Matches h (sub buf a b) i j).
+
+(* Smart case (-S): which patterns are searched case insensitively.  Model/SmartCase.v mirrors
+   AstAnalysis (crates/regex/src/ast.rs) and Config::is_case_insensitive; Spec/SmartCase.v is the documented
+   rule; [upper] stands for char::is_uppercase (any predicate). *)
+Theorem smart_case_analysis_meets_doc : forall upper t,
+  (any_literal (from_ast upper t) = true <-> exists c, PatLit c t) /\
+  (any_uppercase (from_ast upper t) = true <-> exists c, PatLit c t /\ upper c = true).
+Proof. exact analysis_meets_doc_proof. Qed.
+Print Assumptions smart_case_analysis_meets_doc.
+
+Theorem smart_case_decision_meets_doc : forall upper icase smart t,
+  smart_decision upper icase smart t = true <-> case_insensitive_spec upper icase smart t.
+Proof. exact smart_decision_meets_doc_proof. Qed.
+Print Assumptions smart_case_decision_meets_doc.
+
+(* any uppercase literal occurrence (e.g. the END of a class range whose start is a digit) makes -S sensitive *)
+Theorem smart_case_uppercase_literal_forces_sensitive : forall upper t c,
+  PatLit c t -> upper c = true -> smart_decision upper false true t = false.
+Proof. exact uppercase_literal_forces_sensitive_proof. Qed.
+Print Assumptions smart_case_uppercase_literal_forces_sensitive.
+
+(* non-vacuity: `x[0-Z]` is sensitive (Z is a literal: range end), `x[^0-9]` insensitive, `\w` sensitive *)
+Example smart_case_range_end_example :
+  smart_decision ascii_upper false true (SConcat [SLit 120; SClass false (CUnion [CRange 48 90])]) = false /\
+  smart_decision ascii_upper false true (SConcat [SLit 120; SClass true (CUnion [CRange 48 57])]) = true /\
+  smart_decision ascii_upper false true (SOther 5) = false.
+Proof. exact range_end_example_proof. Qed.
+Example smart_case_range_end_is_literal : PatLit 90 (SConcat [SLit 120; SClass false (CUnion [CRange 48 90])]).
+Proof. exact range_end_is_literal_proof. Qed.
+
+Check smart_case_decision_meets_doc : forall upper icase smart t,
+  smart_decision upper icase smart t = true <-> case_insensitive_spec upper icase smart t.
